@@ -17,19 +17,21 @@ RULE = ("seeded histories of default validations (Document / Section / Property)
         "(reset=True + marker rule + run_validation/report), object creation, cardinality changes, "
         "saves, loads and restarts on documents incl. deliberately invalid ones; purity (empty "
         "footprint), repeatability (same validation three times), registry (fixed probe document + "
-        "handler fingerprint) after every op; a sample of runs is re-validated in two fresh "
-        "interpreters with different hash seeds. distinct = distinct universe shapes at which a "
+        "handler fingerprint against the import-time registry) after every op; every second run is "
+        "re-validated by two other interpreters with different hash seeds; store files are damaged "
+        "so that loads fail inside the reader. distinct = distinct universe shapes at which a "
         "validation op ran")
 COMPONENTS = dict(sessioncheck.COMPONENTS)
 COMPONENTS["real"] = COMPONENTS["real"] + ["second and third interpreter process (sampled runs)"]
 TECHNIQUE = ("SESSION: seeded histories interleaving validations with edits, saves, loads; frame "
-             "monitor with empty footprint, registry probe after every op, cross-process re-validation")
+             "monitor with empty footprint, registry probe against the import-time rule set after every "
+             "op, cross-process re-validation under other hash seeds")
 LEVEL_TEXT = ("Seeded exploration of histories in which validations are interleaved with every kind of "
               "operation that runs the library's internal custom validations (constructors, "
               "cardinality setters, save, load). After every op the default rule set is probed through "
               "the public API on a fixed document; validation ops must leave the whole universe "
               "snapshot-identical, report the same multiset when repeated, and keep custom rules "
-              "private. Sampled runs are re-validated in other processes.")
+              "private. Every second run is re-validated in two other processes (long-lived helpers).")
 LEVEL_NOTE = ("Validation.register_handler - the documented way to change the default rules - is not "
               "issued; issue collections are compared as multisets of (object, IssueID, rank, message).")
 DESIGN_REF = "DESIGN.md 4 (C19)"
